@@ -43,13 +43,20 @@ def bases(cls):
     tri = [[-6, 2], [-2, 2], [-6, 5]]
     # clockwise non-convex pentagon in a tilted plane: x = u, y = (3v)/5 ... keep rational via quaternion (1,2,2,0)
     if cls == "ConvexPolyhedron":
-        return {"wedge5": dict(v=wedge), "box123": dict(v=_box(1, 2, 3, (5, 5, -7))), "cube": dict(v=_box(2, 2, 2, (-9, 4, 3)))}
+        # wedge5_nano: the same wedge in nanometres (coordinates 4e-9 .. 11e-9): absolute tolerances must not matter
+        return {"wedge5": dict(v=wedge), "box123": dict(v=_box(1, 2, 3, (5, 5, -7))), "cube": dict(v=_box(2, 2, 2, (-9, 4, 3))),
+                "wedge5_nano": dict(v=wedge, scale=1e-9),
+                # the mean of the vertices is the origin, the centroid (0, 0, 1/4) is not
+                "pyr_vmean0": dict(v=[[1, 1, -1], [-1, 1, -1], [1, -1, -1], [-1, -1, -1], [0, 0, 4]])}
     if cls == "Polyhedron":
         return {"tricube": dict(v=_box(2, 2, 2, (-9, 4, 3)), faces="tri"),
                 "wedge5": dict(v=wedge, faces="hull"),
-                "box123": dict(v=_box(1, 2, 3, (5, 5, -7)), faces="hull")}
+                "box123": dict(v=_box(1, 2, 3, (5, 5, -7)), faces="hull"),
+                "wedge5_nano": dict(v=wedge, faces="hull", scale=1e-9),
+                "pyr_vmean0": dict(v=[[1, 1, -1], [-1, 1, -1], [1, -1, -1], [-1, -1, -1], [0, 0, 4]], faces="hull")}
     if cls == "ConvexSpheropolyhedron":
-        return {"box123_r": dict(v=_box(1, 2, 3, (5, 5, -7)), r=0.5), "wedge5_r": dict(v=wedge, r=0.25)}
+        return {"box123_r": dict(v=_box(1, 2, 3, (5, 5, -7)), r=0.5), "wedge5_r": dict(v=wedge, r=0.25),
+                "wedge5_r_nano": dict(v=wedge, r=0.25e-9, scale=1e-9)}
     if cls == "Polygon":
         return {"dart_cw": dict(v=[[4, 1], [6, 7], [9, 1], [6, 3]][::-1], tilt=True),
                 "rect": dict(v=rect), "pent": dict(v=[[0, 0], [4, 0], [5, 3], [2, 5], [-1, 2]], shift=(30, -20)),
@@ -102,7 +109,7 @@ def build(cls, spec):
         if cls == "ConvexPolygon":
             return S.ConvexPolygon(np.array(v3), normal=n)
         return S.ConvexSpheropolygon(np.array(v3), spec["r"], normal=n)
-    va = np.array(v, dtype=float)
+    va = np.array(v, dtype=float) * spec.get("scale", 1.0)
     if cls == "ConvexPolyhedron":
         return S.ConvexPolyhedron(va)
     if cls == "ConvexSpheropolyhedron":
@@ -318,7 +325,7 @@ def compare(a, b, mlen, skip=()):
 DEG = {"volume": 3, "surface_area": 2, "area": 2}
 
 
-def apply_op(obj, ret):
+def apply_op(obj, ret, unit=1.0):
     """Perform the call described by ret; returns (exception name or 'none', info)."""
     import numpy as np
     op, args = ret["op"], ret["args"]
@@ -349,7 +356,7 @@ def apply_op(obj, ret):
                         cur = np.zeros(3)          # classes without a centroid: the assignment below raises as for any target
                     info["target"] = cur + 1e-6 * np.abs(cur) * np.array([1.0, -1.0, 1.0]) + np.array([5e-9, 5e-9, -5e-9])
                 else:
-                    info["target"] = np.array(TARGETS[args[0]])
+                    info["target"] = np.array(TARGETS[args[0]]) * unit      # in the units of the base shape
                 setattr(obj, args[1], info["target"].copy())
             elif op == "radius":
                 obj.radius = float(obj.radius) * float(F(args[0][0], args[0][1]))
@@ -435,7 +442,7 @@ def run_history(job):
             before_cen = np.array(obj.centroid, dtype=float)
         except Exception:
             before_cen = None
-        exc, info = apply_op(obj, ret)
+        exc, info = apply_op(obj, ret, spec.get("scale", 1.0))
         want = ret["exc"]
         if exc != want:
             if want == "none":
